@@ -134,6 +134,19 @@ PROPS = {
                 "compiled without a filter and with each of ten filters (config, state, Exclude(state), Exclude(config), Include(config, IncludeState(true/false)), IsConfigOrState, IsOpd, Exclude(IsOpd), Include()); compared: for every filter, "
                 "dump(filtered compile) = prune(dump(unfiltered compile)) on the real code (all attributes), and the unfiltered dump (core attributes) and every error with the Lean compile model",
     },
+    "C14": {
+        "streams": {"ycfg": {"quick": 2500, "thorough": 120000}},
+        "trusted": ["the canonical dump of a compiled ModelSet and the classification of compile errors into classes (harness)",
+                    "'editing the target's source accordingly' is performed by the harness on the generator's AST (and independently by Spec.YCfgS.editNode in Lean)"],
+        "modelled": ["deviations of default / config / mandatory / min-elements / max-elements and not-supported; units, must, unique, type and extension properties are not generated",
+                     "one deviation per node and none nested in another one's target (how several deviations of one subtree combine is not compared)",
+                     "typedef / grouping / identity reference-status checks are not generated here (only if-feature references)",
+                     "when several errors apply, which one is reported first depends on Go map order across modules; single-error cases dominate"],
+        "rule": "random module bodies with config / status statements (as for C20), 0-5 features in the module and 0-3 in an imported module with a random dependency graph (forward edges, rare back edges, "
+                "cross-module edges, rare deprecated/obsolete features), a random enabled set, if-feature statements (1-2 per node, local and imported features) on 18 % of the nodes, and 0-3 deviations "
+                "(not-supported; add / replace / delete of default, config, mandatory, min-elements, max-elements; 12 % chosen against what the RFC allows for the node); compared: the compile verdict and error class, "
+                "the dump of the compiled tree, and — on the real code — dump(module + deviations) = dump(module edited accordingly)",
+    },
     "C04": {
         "streams": {"xsmall": {"quick": 1, "thorough": 1, "spec_proj": "accept"},
                     "xfuzz": {"quick": 30000, "thorough": 1000000, "spec_proj": "accept"}},
